@@ -688,6 +688,19 @@ fn vectors(idx: u64, seed: u64, ctx: &mut Ctx) -> R {
     Ok(())
 }
 
+/// raw bytes (fuzz entry and replay format): first byte selects the type, the rest is the wire string
+fn raw_bytes(t: &mut Tape, ctx: &mut Ctx) -> R {
+    let ty = usize::from(t.u8()) % TYPES.len();
+    let n = t.remaining();
+    let b = t.bytes(n);
+    let r = check_bytes_as(ty, &b, ctx)?;
+    ctx.class(&format!("raw:{}:{}", TYPES[ty], if r.is_none() { "accepted" } else { "rejected" }));
+    if r.is_none() && b.len() > 4 {
+        ctx.nontrivial(&(ty, &b));
+    }
+    Ok(())
+}
+
 pub fn corpus_tx_files() -> Vec<(String, Vec<u8>)> {
     let mut out = Vec::new();
     let dir = format!("{}/corpus/tx", VERIF_DIR);
@@ -725,6 +738,7 @@ pub fn property() -> Property {
             Sub { name: "mutants", kind: Kind::Tape { max_len: 3000, quick: 100_000, thorough: 3_000_000, f: mutants } },
             Sub { name: "noncanonical", kind: Kind::Tape { max_len: 1500, quick: 20_000, thorough: 300_000, f: noncanonical } },
             Sub { name: "vectors", kind: Kind::Index { count: |t| t.pick(15, 15 * 40), exhaustive: false, f: vectors } },
+            Sub { name: "raw_bytes", kind: Kind::Tape { max_len: 300, quick: 20_000, thorough: 400_000, f: raw_bytes } },
         ],
         known: vec![],
     }
